@@ -75,6 +75,9 @@ def cases(draw, tier):
             if len(sp) > 2 and sp[2] == "gg":
                 sp[2] = [g, g]
             subs.append(sp)
+        if draw(st.integers(0, 3)) == 0:
+            # focus: a rank-2 sub-element ahead of the others (flattened offsets of the later blocks, seeded C22-m7)
+            subs[0] = [["P", 1, [g, g]], ["Regge", 1], ["HHJ", 1]][draw(st.integers(0, 2))]
         n = sum(phys_size(s, g) for s in subs)
         world["fields"]["a0"] = dict(kind="arg", elem=["mixed", subs], shape=[n], number=0, part=None)
         names_v, names_u = ["a0"], []
